@@ -10,14 +10,15 @@ which Boolean mask).  Oracle: list comprehension over the tuple list."""
 from vf.cond import Cond
 
 CONDS = {}
-ASSUMPTIONS = ['labels are ints; the tree shapes are the two listed ones']
-OUTSIDE = ('Boolean masks at outer depths and selectors matching nothing (excluded by the property); datetime levels; depth 4; trees other than the listed shapes')
+ASSUMPTIONS = ['labels are ints; the tree shapes are the four listed ones (depth 2, 3, 4; ragged and regular)']
+OUTSIDE = ('Boolean masks at outer depths and selectors matching nothing (excluded by the property); datetime levels; trees other than the listed shapes')
 TRACES_QUICK = 30
 
 TREE2 = [(0, 10), (0, 11), (1, 10), (1, 12), (2, 11)]
 TREE3 = [(0, 5, 10), (0, 5, 11), (0, 6, 10), (1, 5, 12), (1, 7, 10), (1, 7, 11)]
 TREEREG = [(o, i) for o in (0, 1) for i in (10, 11, 12)]   # regular: every subtree holds the same inner labels
-TREES = {'tree2': TREE2, 'tree3': TREE3, 'treereg': TREEREG}
+TREE4 = [(0, 5, 10, 20), (0, 5, 10, 21), (0, 5, 11, 20), (0, 6, 10, 20), (1, 5, 10, 20), (1, 5, 11, 20), (1, 5, 11, 21), (1, 7, 12, 22)]
+TREES = {'tree2': TREE2, 'tree3': TREE3, 'treereg': TREEREG, 'tree4': TREE4}
 
 
 def _add(c):
@@ -113,7 +114,8 @@ def mk_hloc(tree_name, kinds, tier='quick', timeout=300):
             sels.append(sel); preds.append(pred); orders.append(order)
         if 'mask' in kinds:
             mask = [kw[f'm{i}'] for i in range(len(tuples))]
-            pos = [i for i, t in enumerate(tuples) if mask[i] and all(p(t[d]) for d, p in enumerate(preds) if p is not None)]
+            # the mask removes positions; the order among the survivors is the one the label selectors give
+            pos = [i for i in ref_select(tuples, [(p if p is not None else (lambda l: True)) for p in preds], orders) if mask[i]]
         else:
             pos = ref_select(tuples, preds, orders)
         if not pos:
@@ -172,6 +174,13 @@ _add(mk_hloc('treereg', ('list', 'slice')))
 _add(mk_hloc('tree3', ('label', 'all', 'label')))
 _add(mk_hloc('tree3', ('all', 'list', 'all')))
 _add(mk_hloc('tree3', ('slice', 'all', 'mask'), timeout=600))
+# depth 4: a multi-target selector at the third level under every outer label (offsets of all ancestors accumulate)
+_add(mk_hloc('tree4', ('all', 'all', 'list', 'all'), timeout=400))
+_add(mk_hloc('tree4', ('label', 'all', 'all', 'label'), timeout=400))
+_add(mk_hloc('tree4', ('all', 'label', 'list', 'label'), timeout=400))
+for _k in (('list', 'all', 'all', 'all'), ('all', 'list', 'all', 'label'), ('label', 'label', 'list', 'list'), ('all', 'all', 'all', 'mask'),
+           ('list', 'list', 'all', 'all'), ('all', 'all', 'label', 'all'), ('label', 'all', 'list', 'mask')):
+    _add(mk_hloc('tree4', _k, tier='thorough', timeout=900))
 for _k0 in ('label', 'list', 'slice', 'all'):
     for _k1 in ('label', 'list', 'slice', 'all', 'mask'):
         c = mk_hloc('treereg' if _k1 == 'slice' else 'tree2', (_k0, _k1), tier='thorough', timeout=900)
@@ -233,3 +242,71 @@ _add(Cond('frame_hierarchical_rows', [('a', 'int'), ('b', 'int')], body_frame_ro
         functions=['Frame._extract_loc' if False else 'Frame._compound_loc_to_iloc', 'IndexHierarchy._extract_iloc'],
         bounds='5-row frame on tree2; outer label and inner label symbolic among the held labels',
         route='Frame.loc[HLoc[outer]] returns that subtree; Frame.loc[(outer, inner), col] returns the single cell or raises', timeout=240))
+
+
+# ---------------------------------------------------------------- grow-only hierarchy: every view in step after every growth
+
+def body_go_growth(env, read, how, o, i, o2, i2):
+    """IndexHierarchyGO from tree2, optionally read (cached arrays materialised), then grown by append (one tuple) or
+    extend (two tuples); every view of the grown index AND of the containers built from it right after the growth
+    (no read in between) must describe the same tuple sequence."""
+    from vf import rt
+    read, how = bool(read), concretize(how, 0, 1)
+    o, i, o2, i2 = concretize(o, 0, 3), concretize(i, 10, 13), concretize(o2, 0, 3), concretize(i2, 10, 13)
+
+    def views(ix, tuples):
+        got = [len(ix), env.obs([list(t) for t in ix]), env.obs(ix.values.tolist()), env.obs(ix.values_at_depth(0).tolist()),
+               env.obs(ix.values_at_depth(1).tolist()), [env.obs(ix.loc_to_iloc(t)) for t in tuples], [bool(t in ix) for t in tuples],
+               list(ix.shape), env.obs(ix.positions.tolist())]
+        exp = [len(tuples), [list(t) for t in tuples], [list(t) for t in tuples], [t[0] for t in tuples], [t[1] for t in tuples],
+               list(range(len(tuples))), [True] * len(tuples), [len(tuples), 2], list(range(len(tuples)))]
+        return got, exp
+
+    def run():
+        sf = env.sf
+        from static_frame.core.exception import ErrorInitIndex
+        tuples = list(TREE2)
+        g = sf.IndexHierarchyGO.from_labels(tuples)
+        if read:
+            _ = g.values
+            _ = g.values_at_depth(1)
+        new = [(o, i)] if how == 0 else [(o, i), (o2, i2)]
+        # duplicates MUST be rejected.  A tuple under an outer label that is held but is not the LAST one cannot be stored
+        # (the tree keeps the leaves of an outer label together and outer labels are unique): the library may refuse it, and
+        # extend refuses every outer label it already holds; what it may never do is accept and then present other tuples.
+        dup = any(t in tuples for t in new) or len(set(new)) != len(new)
+        try:
+            if how == 0:
+                g.append(new[0])
+            else:
+                g.extend(sf.IndexHierarchy.from_labels(new))
+            accepted = True
+        except (ErrorInitIndex, KeyError, RuntimeError, ValueError):
+            accepted = False
+        if accepted:
+            tuples = tuples + new
+        last_outer = TREE2[-1][0]
+        must_accept = (not dup) and all(t[0] not in [x[0] for x in TREE2] for t in new) and (how == 0 or new[0][0] != new[1][0] or True)
+        if how == 0 and not dup and new[0][0] == last_outer:
+            must_accept = True
+        derived = [sf.IndexHierarchy(g), g.rename('r'), sf.Series(env.array(list(range(len(g))), 'int64'), index=g).index, g.copy()]
+        # accepted is pinned where the answer is forced: duplicates are refused, brand-new outer labels / the last subtree are taken
+        got = [accepted if (dup or must_accept) else 'either']
+        exp = [False if dup else (True if must_accept else 'either')]
+        for ix in derived + [g]:
+            a, b = views(ix, tuples)
+            got.append(a); exp.append(b)
+        return got, exp
+    return rt.untraced(run)
+
+
+def _mk_growth(tag, ranges, tier, timeout):
+    return Cond('hierarchy_go_growth_views' + tag, [('read', 'bool'), ('how', 'int'), ('o', 'int'), ('i', 'int'), ('o2', 'int'), ('i2', 'int')], body_go_growth,
+        ranges=ranges, pre=[f"how == 1 or (o2 == {ranges['o2'][0]} and i2 == {ranges['i2'][0]})"],
+        functions=['IndexHierarchyGO.append', 'IndexHierarchyGO.extend', 'IndexHierarchy._update_array_cache'],
+        bounds=f'IndexHierarchyGO on tree2; symbolic: cached arrays materialised before the growth or not, append of one tuple or extend by two, the new tuples (ranges {ranges}: new leaf, new outer label, held non-terminal outer label, duplicate of a held tuple, duplicate inside the call)',
+        route='after the growth: len / iteration / values / values_at_depth / loc_to_iloc / membership / positions agree, for the grown index and for IndexHierarchy(g), g.rename(), Series(index=g).index, g.copy() taken right after', tier=tier, timeout=timeout)
+
+
+_add(_mk_growth('', {'how': (0, 1), 'o': (0, 3), 'i': (10, 13), 'o2': (2, 3), 'i2': (10, 11)}, 'quick', 400))
+_add(_mk_growth('_wide', {'how': (0, 1), 'o': (0, 3), 'i': (10, 13), 'o2': (0, 3), 'i2': (10, 13)}, 'thorough', 1500))
